@@ -196,9 +196,11 @@ def check_visitors(ctx, R="C09.identity"):
             ctx.note(f"documented visitor visit_{cname} absent (fewer rewrites, not a violation)")
 
     def flag_guard(node, fn, need):
+        # the conditions under which `node` is reached must be unsatisfiable with every flag of `need` unset
+        env = {f"self.{n}": False for n in need}
         for t, p in lib.guard_tests(node, fn):
-            names = {n.attr for n in ast.walk(t) if isinstance(n, ast.Attribute) and isinstance(n.value, ast.Name) and n.value.id == "self"}
-            if names & need and p:
+            v = lib.tri_eval(t, env)
+            if v is not None and v != p:
                 return True
         return False
 
@@ -341,15 +343,20 @@ def _is_copy_location(fn, value):
 
 
 def _later_copy(fn, n):
+    """The node built at n is bound to a local that a later, reachable `ast.copy_location(<that local>, ...)` locates."""
     st = lib.statement_of(n)
     if isinstance(st, ast.Assign) and isinstance(st.targets[0], ast.Name):
         v = st.targets[0].id
-        for r in lib.returns_of(fn):
-            # the new node must be the FIRST argument of copy_location (the second one is where the location comes from)
-            if r.value is not None and isinstance(r.value, ast.Call) and dotted(r.value.func) == "ast.copy_location" and r.value.args and v in lib.names_loaded(r.value.args[0]) and r.lineno >= st.lineno:
-                return True
+        blocks = [parent(st)] + list(ancestors(st))
+
+        def reachable(later):
+            # a later statement of the same block or of an enclosing one (not a sibling branch)
+            ls = lib.statement_of(later)
+            return ls is not None and ls.lineno >= st.lineno and any(parent(ls) is b for b in blocks)
+
         for a in walk_local(fn):
-            if isinstance(a, ast.Call) and dotted(a.func) == "ast.copy_location" and a.args and v in lib.names_loaded(a.args[0]) and a.lineno >= st.lineno and not isinstance(parent(a), ast.Return):
+            # the new node must BE the first argument of copy_location (the second one is where the location comes from)
+            if isinstance(a, ast.Call) and dotted(a.func) == "ast.copy_location" and a.args and isinstance(a.args[0], ast.Name) and a.args[0].id == v and reachable(a):
                 return True
     return isinstance(st, ast.Return) and isinstance(st.value, ast.Call) and dotted(st.value.func) == "ast.copy_location"
 
